@@ -18,4 +18,4 @@ class Part(IC.InboxSched):
     prop = 1
 
 
-PARTS = [Part()]
+PARTS = [Part(), IC.Deliver()]
